@@ -90,3 +90,28 @@ func H_C12_bad_entries_loop() {
 		vAssert("C12.bad-loop.drained", a.Len() == 0)
 	})
 }
+
+// H_C11_recover_loop_priority: the same on the persistent PRIORITY flavour (WithPersistentPriorityQueue).
+func H_C11_recover_loop_priority() {
+	fDeq := vNondetBool()
+	runs := 0
+	a := &hAdapterP{}
+	a.byPrio = true
+	j0, _ := newJob(7, jobConfigs{Id: "r0"}).Json()
+	a.Enqueue(j0, 3)
+	a.failDeq = fDeq
+	w := NewWorker(func(j Job[int]) { runs++ }, 1)
+	w.WithPersistentPriorityQueue(a)
+	errs := 0
+	go func() {
+		for range w.Errs() {
+			errs++
+		}
+	}()
+	vAtQuiescence(func() {
+		vReach("C11.recover-prio.quiescent")
+		vAssert("C11.recover-prio.all-processed", runs == 1 && a.Len() == 0)
+		vAssert("C11.recover-prio.acked-once", a.acked[0] == 1 && !a.badAck)
+		vAssert("C11.recover-prio.fault-reported", (errs == 1) == fDeq)
+	})
+}
